@@ -213,7 +213,11 @@ func runC10(c *harness.Ctx, sysq []*spec.Query) {
 	ms := &memberSet{obj: r.Intn(3) == 0, root: map[string]interface{}{}}
 	seen := map[string]bool{}
 	n := 1 + r.Intn(7)
-	for tries := 0; len(ms.members) < n && tries < 40; tries++ {
+	long := r.Intn(12) == 0 // containers beyond the small sizes: 17..40 members, told apart by an extra member "n"
+	if long {
+		n = 17 + r.Intn(24)
+	}
+	for tries := 0; len(ms.members) < n && tries < 400; tries++ {
 		var v interface{}
 		switch r.Intn(4) {
 		case 0:
@@ -229,6 +233,13 @@ func runC10(c *harness.Ctx, sysq []*spec.Query) {
 				o["b"] = c10Leaf(r)
 			}
 			v = o
+		}
+		if long {
+			o, ok := v.(map[string]interface{})
+			if !ok {
+				continue
+			}
+			o["n"] = float64(1000 + len(ms.members)) // never equal to a number of the pools
 		}
 		js := lib.JS(v)
 		if !seen[js] {
